@@ -95,8 +95,12 @@ def instances(tier):
                 yield {"op": "group_by_until", "key": k, "elem": e, "dur": d}
     for pol in ("both", "first", "second"):
         for p in ("eqA", "neA", "T", "F", "int"):
+            if q and pol != "both" and p not in ("eqA", "int"):
+                continue
             yield {"op": "partition", "pred": p, "policy": pol}
         for p in ("ieven", "i<1", "eqA-or-i=2", "i"):
+            if q and pol != "both" and p != "ieven":
+                continue
             yield {"op": "partition_indexed", "pred": p, "policy": pol}
 
 
